@@ -425,6 +425,20 @@ def _replay(rec):
         probs, desc = run_python_case(case["mode"], case["action"])
     elif case.get("shell"):
         probs, desc = run_shell_case(case["mode"], case["action"])
+    elif case.get("mixed"):
+        base = tempfile.mkdtemp(prefix="vf_c34r_")
+        try:
+            _worker_init(base)
+            probs, desc = run_mixed_case(case["kind"], case["leaf"], case["mode_x"], case["mode_y"], case["same_object"])
+        finally:
+            shutil.rmtree(base, ignore_errors=True)
+    elif "shape" not in case:
+        print("replay C34: no native case recorded for this obligation (see solver_output): re-verifying the contract on the current tree")
+        from vf.core import Ctx
+
+        c = Ctx("C34")
+        deductive(c)
+        probs, desc = [v.get("what") for v in c.violations], "Job.inputs contract"
     else:
         _, (probs, desc) = next(run_cases([(case["shape"], tuple(case["leaves"]), case["mode"], case["collation"], case["mounts"])], 1))
     print(f"replay C34: {desc} problems={probs}")
